@@ -6,9 +6,11 @@ import json, os, random
 from concurrent.futures import ThreadPoolExecutor
 from vlib import core
 
-PKG = {"n1": "p", "n2": "p", "n3": "p/q", "r": "r"}
+PKG0 = {"n1": "p", "n2": "p", "n3": "p/q", "r": "r"}
 
 def render(ws, g):
+    PKG = dict(PKG0, r="" if g.get("layout") == "root" else "r")
+
     def name(n):
         return n + "test" if n in g["test"] else n
     pk = {}
@@ -56,8 +58,8 @@ def run(chk, tmp, replay=None):
     chk.cov["case_counts"] = d["counts"]
     chk.cov["rule"] = ("every (graph, invocation) pair is built as real model nodes + BuildGraph and selected by the real Selector; the selected target set or the platform error must equal the "
                        "specification's; pairs outside the property's domain (a matched alias whose target fails the filters) are counted as undefined and skipped")
-    chk.cov["bounds"] = {"graph": "4 nodes in packages p, p, p/q, r; n2 a target or an alias to n1 / n3; %s dependency shapes; t1 tag on none/n1/n3; test name on none/n3/r; platform restriction on n1 / r" % ("16" if quick else "64"),
-                         "invocations": "11 pattern sets (absolute, relative, recursive, :all, shorthand, name suffix, two patterns) x {no tag filter, --tag t1, --exclude-tag t1} x {build, test} x {host platform, --all-platforms}"}
+    chk.cov["bounds"] = {"graph": "4 nodes in packages p, p, p/q, r (or the root package); n2 a target or an alias to n1 / n3; %s dependency shapes; t1 tag on none/n1/n3; test name on none/n3/r; platform restriction on n1 / r" % ("16" if quick else "64"),
+                         "invocations": "16 pattern sets (absolute, relative, recursive, :all, shorthand, name suffix, two patterns, root package) x {no tag filter, --tag t1, --exclude-tag t1} x {build, test} x {host platform, --all-platforms}"}
     for x in d["disagreements"]:
         kind = "panic" if x["real"].startswith("panic") else ("selects-wrong-set" if x["model"].startswith("ok") and x["real"].startswith("ok") else "error-mismatch")
         chk.violation(f"selection:{kind}:{x['model']}->{x['real']}", f"graph {json.dumps(x['graph'])} invocation {json.dumps(x['inv'])}: specification {x['model']}, real Selector {x['real']}", x)
